@@ -1,6 +1,7 @@
 import Cdecao.Proofs.HungFinal
 import Cdecao.Proofs.HungTotal
 import Cdecao.Proofs.SpecExec
+import Cdecao.Proofs.HungBounds
 /-! # C07 — the matching routine returns a maximum-weight constrained perfect matching
 
 Model: `H2.run` (hungarian.rs, same iteration, same tie-breaking). `probOf I` is the bipartite
@@ -32,5 +33,81 @@ theorem C07_exec (I : Inp) (hsq : #(probOf I).X = #(probOf I).Y) (mm : Vec Nat) 
   intro σ' hσ
   rw [HSpec.weight_eq]
   exact h3 σ' ((HSpec.perfectb_iff I σ').1 hσ)
+
+/-! ## `i32` arithmetic (hungarian.rs: `type Label = i32`, `LARGE_LABEL = i32::MAX`)
+
+`H2B.run B` (Cdecao/Model/HungarianI32.lean) is the same routine with every arithmetic result checked
+against `[-B, B)` (`B = 2^31` for `i32`) and the scan failing on a delta equal to the sentinel `B - 1`:
+it returns `none` as soon as the Rust routine would overflow (or confuse a delta with `LARGE_LABEL`).
+Proofs: Cdecao/Proofs/HungBounds.lean (label bounds: in a run that returns, `lx ∈ [-2·ny·W, W]`,
+`ly ∈ [0, (2·ny+1)·W]`, sums/deltas within `±(2·ny+2)·W`, score in `[0, ny·W]`) and
+Cdecao/Proofs/HungI32Conv.lean (converse). -/
+
+/-- no overflow: for weights in `[0, W]` and `(2·ny + 2)·W + 1 < B` the range-checked routine returns
+    whatever the unbounded model returns -/
+theorem C07_i32 (I : Inp) (W B : Int) (r : Vec Nat × Int)
+    (hw : ∀ x y, 0 ≤ I.wt x y ∧ I.wt x y ≤ W) (hB : (2 * (I.ny : Int) + 2) * W + 1 < B)
+    (h : run I = some r) : H2B.run B I = some r :=
+  H2B.run_sim I W B hw hB r h
+
+/-- the same with the bound stated in `n = max nx ny` (the side condition `1 < B` only matters for `W = 0`) -/
+theorem C07_i32_max (I : Inp) (W B : Int) (r : Vec Nat × Int)
+    (hw : ∀ x y, 0 ≤ I.wt x y ∧ I.wt x y ≤ W)
+    (hB : (4 * ((max I.nx I.ny : Nat) : Int) + 4) * W < B) (hB1 : 1 < B)
+    (h : run I = some r) : H2B.run B I = some r :=
+  H2B.run_sim_max I W B hw hB hB1 r h
+
+/-- converse, for every bound and every input: the checked routine only ever fails more often -/
+theorem C07_i32_conv (I : Inp) (B : Int) (r : Vec Nat × Int) (h : H2B.run B I = some r) : run I = some r :=
+  H2B.run_conv B I r h
+
+/-- hence, under the bound, both routines agree (also in failing) -/
+theorem C07_i32_eq (I : Inp) (W B : Int) (hw : ∀ x y, 0 ≤ I.wt x y ∧ I.wt x y ≤ W)
+    (hB : (2 * (I.ny : Int) + 2) * W + 1 < B) : H2B.run B I = run I :=
+  H2B.run_eq I W B hw hB
+
+/-- caobab: weights are at most `WEIGHT_OFFSET = 50000`; for up to 10 000 rows/columns (course places)
+    the `i32` routine agrees with the unbounded model -/
+theorem C07_i32_caobab (I : Inp) (hn : max I.nx I.ny ≤ 10000)
+    (hw : ∀ x y, 0 ≤ I.wt x y ∧ I.wt x y ≤ 50000) : H2B.run (2^31) I = run I := by
+  apply H2B.run_eq I 50000 (2^31) hw
+  have : I.ny ≤ 10000 := Nat.le_trans (Nat.le_max_right _ _) hn
+  omega
+
+/-- the condition of `C07_i32_max` for caobab's numbers -/
+example (n : Nat) (hn : n ≤ 10000) : (4 * (n : Int) + 4) * 50000 < 2^31 := by omega
+
+/-- C07 for the `i32` routine, partial correctness (no hypothesis on the weights: whatever the checked
+    routine returns is right) -/
+theorem C07_i32_partial (I : Inp) (B : Int) (hsq : #(probOf I).X = #(probOf I).Y) (mm : Vec Nat) (sc : Int)
+    (h : H2B.run B I = some (mm, sc)) :
+    Perfect (probOf I) mm.get ∧ sc = weight (probOf I) mm.get ∧
+    ∀ σ', Perfect (probOf I) σ' → weight (probOf I) σ' ≤ sc :=
+  hung_partial I hsq mm sc (H2B.run_conv B I _ h)
+
+/-- C07 for the `i32` routine, totality: with a constrained perfect matching and the bound, it returns -/
+theorem C07_i32_total (I : Inp) (W B : Int) (τ : Nat → Nat) (ha : Admits I τ)
+    (hw : ∀ x y, 0 ≤ I.wt x y ∧ I.wt x y ≤ W) (hB : (2 * (I.ny : Int) + 2) * W + 1 < B) :
+    ∃ r, H2B.run B I = some r := by
+  obtain ⟨r, hr⟩ := hung_total I τ ha
+  exact ⟨r, H2B.run_sim I W B hw hB r hr⟩
+
+/-- non-vacuity: `H2B.exI` (3×3, dummy row, mandatory column, needs label updates) satisfies the hypotheses
+    of `C07_i32` with `W = 8`, `B = 2^31`; the `i32` routine returns the matching `[0, 2, 1]` with score 19;
+    with `B = 19` it fails -/
+example : ∃ r, run H2B.exI = some r ∧ H2B.run (2^31) H2B.exI = some r := by
+  have h : (run H2B.exI).isSome = true := by decide
+  obtain ⟨r, hr⟩ := Option.isSome_iff_exists.1 h
+  exact ⟨r, hr, C07_i32 H2B.exI 8 (2^31) r H2B.exI_wt (by decide) hr⟩
+example : (H2B.run (2^31) H2B.exI).map (fun r => (r.1.a, r.2)) = some (#[0, 2, 1], 19) := by decide
+example : (H2B.run 19 H2B.exI).isNone = true := by decide
+
+#print axioms C07_i32
+#print axioms C07_i32_max
+#print axioms C07_i32_conv
+#print axioms C07_i32_eq
+#print axioms C07_i32_caobab
+#print axioms C07_i32_partial
+#print axioms C07_i32_total
 
 end Props
